@@ -19,6 +19,7 @@ PROPS["C05"] = {
             "FuzzC05Decode": FUZZ(60, configs=["default"]),
             "TestC05Wide": T(120000, 3000000),
             "TestC05Slices": T(24000, 400000),
+            "TestC05ParSlices": T(600, 20000), "TestC05ParArith": T(2000, 100000),
             "TestC05Unpacked": T(80000, 2000000),
             "TestC05Lengths": LIST(),
             "TestC05NilEntropy": LIST(),
